@@ -501,6 +501,42 @@ func (d *drv) step(o op) (int, uint64) {
 			return e
 		})
 		d.h.Ctx = d.ctx
+	case "locktokens":
+		// lockup MsgLockTokens: adds to the owner's existing bonded lock of the same denom and duration, else creates one
+		coin := sdk.NewCoin(d.denoms[o.D], bi(o.Amt))
+		err = apph.Atomic(d.ctx, func(ctx sdk.Context) error {
+			d.h.Ctx = ctx
+			d.h.FundAcc(d.owner(o.O), sdk.NewCoins(coin))
+			r, e := lkms.LockTokens(ctx, lockuptypes.NewMsgLockTokens(d.owner(o.O), time.Duration(o.Dur), sdk.NewCoins(coin)))
+			if e == nil {
+				newID = r.ID
+			}
+			return e
+		})
+		d.h.Ctx = d.ctx
+	case "lockdel":
+		coin := sdk.NewCoin(d.denoms[o.D], bi(o.Amt))
+		err = apph.Atomic(d.ctx, func(ctx sdk.Context) error {
+			d.h.Ctx = ctx
+			d.h.FundAcc(d.owner(o.O), sdk.NewCoins(coin))
+			r, e := sfms.LockAndSuperfluidDelegate(ctx, &sftypes.MsgLockAndSuperfluidDelegate{Sender: d.owner(o.O).String(), Coins: sdk.NewCoins(coin), ValAddr: d.valAddrStr(o.V)})
+			if e == nil {
+				newID = r.ID
+			}
+			return e
+		})
+		d.h.Ctx = d.ctx
+	case "cldel":
+		amt := bi(o.Amt)
+		err = apph.Atomic(d.ctx, func(ctx sdk.Context) error {
+			coins := sdk.NewCoins(sdk.NewCoin(d.bond, amt), sdk.NewCoin("usdc", amt))
+			r, e := sfms.CreateFullRangePositionAndSuperfluidDelegate(ctx, &sftypes.MsgCreateFullRangePositionAndSuperfluidDelegate{
+				Sender: d.owner(o.O).String(), Coins: coins, ValAddr: d.valAddrStr(o.V), PoolId: d.pools[o.D]})
+			if e == nil {
+				newID = r.LockID
+			}
+			return e
+		})
 	case "topup":
 		err = apph.Atomic(d.ctx, func(ctx sdk.Context) error {
 			l, e := app.LockupKeeper.GetLockByID(ctx, o.ID)
